@@ -30,7 +30,10 @@ RULE = ("the full decision table skipped x rate {0, 1/4, 1/2, float(0.1), 1, 3/2
         "text, bytes; two classes with different fractional rates), the decisions also compared with the documented rule applied "
         "to the stream of random.Random(seed) itself; the S3 cassettes are fed directly or THROUGH a real TapeRecorder whose "
         "operations return / raise / are interrupted, also with a calculated rate of 0 for every size: every save consults "
-        "the calculator once; "
+        "the calculator once; a recorded operation inside which other scopes of the recorder open and close (a replay of an "
+        "earlier recording, another decorated operation called from the body - kind nested_scope, implementation only): the "
+        "decision for the enclosing operation follows (forced, ignore, rate, draw) and every created recording is handed back "
+        "to the cassette exactly once; "
         "non-trivial = a row where the draw decides or a force/discard interacts; distinct = distinct case")
 ASSUMPTIONS = ["the Mersenne Twister is an oracle stream; uniformity is assumed, the kept fraction over a seeded history is "
                "reported as an observation only",
